@@ -142,6 +142,48 @@ def srt_merge_check(cs, model, patterns):
     return []
 
 
+def _want_lines(merged):
+    from mc.ref import parsers
+
+    want = []
+    for s_, e_, nodes in merged:
+        lines, cur = [], ""
+        for t_, c_, _st in nodes:
+            if t_ == 1:
+                cur += c_
+            elif t_ == 3:
+                lines.append(cur)
+                cur = ""
+        lines.append(cur)
+        want.append([parsers.norm_line(l) for l in lines if parsers.norm_line(l)])
+    return want
+
+
+def dfxp_merge_check(cs, model):
+    """the two DFXP writers that merge concurrent captions (single-positioning, legacy): in every language, every maximal
+    run comes out as one p that carries the text of all its captions in order - whichever language the run is in"""
+    from pycaption.dfxp import extras
+
+    from mc.ref import parsers
+
+    want = {lang: _want_lines(ml) for lang, ml in ref_merge(model).items()}
+    out = []
+    for name in ("SinglePositioningDFXPWriter", "LegacyDFXPWriter"):
+        try:
+            t = parsers.parse_ttml(getattr(extras, name)().write(copy.deepcopy(cs)))
+        except Exception as e:  # noqa
+            out.append((f"C19/{name}-merge/raises:{type(e).__name__}", str(e)[:200]))
+            continue
+        got = {}
+        for d in t["divs"]:
+            got.setdefault(d["lang"], []).extend([[parsers.norm_line(l) for l in p_["lines"] if parsers.norm_line(l)] for p_ in d["ps"]])
+        if {k: v for k, v in got.items() if v} != {k: v for k, v in want.items() if v}:
+            bad = sorted(l for l in set(got) | set(want) if got.get(l, []) != want.get(l, []))
+            first_has_run = len(want[list(want)[0]]) != len(model[list(model)[0]])
+            out.append((f"C19/{name}-merge/run-not-merged-or-text-lost" + ("" if first_has_run or len(want) == 1 else "/run-only-in-a-later-language"), {"languages": bad, "got": got, "want": want}))
+    return out
+
+
 def _dyadic(fr):
     d = fr.denominator
     return d & (d - 1) == 0 and d <= 2 ** 20 and abs(fr.numerator) < 2 ** 52
@@ -273,6 +315,9 @@ def explore(patterns, depth, acc):
     if len(model0) == 1 and all(0 <= s_ <= e_ and visible(n_) for _, ml in model0.items() for s_, e_, n_ in ml):
         for sig, det in srt_merge_check(cs0, model0, patterns):
             acc.violation(sig, {"patterns": patterns, "ops": [], "srt": True}, det)
+    if model0 and all(0 <= s_ < e_ and visible(n_) for _, ml in model0.items() for s_, e_, n_ in ml) and any(ml for ml in model0.values()):
+        for sig, det in dfxp_merge_check(cs0, model0):
+            acc.violation(sig, {"patterns": patterns, "ops": [], "dfxp": True}, det)
     acc.states += 1
     frontier = [([], cs0, model0)]
     for d in range(depth):
@@ -370,6 +415,8 @@ def replay(case):
     hist = []
     if case.get("srt"):
         return [{"sig": sig, "detail": det} for sig, det in srt_merge_check(cs, model, patterns)]
+    if case.get("dfxp"):
+        return [{"sig": sig, "detail": det} for sig, det in dfxp_merge_check(cs, model)]
     if not case["ops"]:
         return [{"sig": sig, "detail": det} for sig, det in compare(cs, model, patterns, [])]
     for op in case["ops"]:
